@@ -5,8 +5,8 @@ import (
 	"fmt"
 	"io"
 	"os"
-	"syscall"
 	"strings"
+	"syscall"
 	"testing"
 	"time"
 	"unicode/utf8"
